@@ -8,9 +8,11 @@ git apply /verif/seeded/$name/patch.diff || { echo "patch does not apply to /rep
 trap 'git -C /repo checkout -- . ' EXIT
 cd /verif
 res=""
+: > /verif/seeded/$name/detect.txt
 for p in "$@"; do
   out=$(VERIF_NO_EVIDENCE=1 ./bin/tibcvc check $p --tier quick 2>&1); rc=$?
   echo "$out" | grep -E "^(VIOLATION|check )" | cut -c1-400
+  echo "$out" | grep -E "^(VIOLATION|check )" | sed -E 's/ replay=[^ ]*//' | cut -c1-300 >> /verif/seeded/$name/detect.txt
   res="$res $p:$rc"
 done
-echo "SEED $name ->$res" | tee /verif/seeded/$name/detect.txt
+echo "SEED $name ->$res" | tee -a /verif/seeded/$name/detect.txt
